@@ -28,9 +28,9 @@ PROP = dict(
                  "decoding targets are fresh bitmaps or used bitmaps without an op writer"],
     tags=["groar", "gr2"],
     units=[
-        U("roundtrip", "./roaring", "^TestVerifC04_Roundtrip$", 1200, 60000, env=_ENV),
-        U("official", "./roaring", "^TestVerifC04_(Calibration|Official)$", 1600, 80000, env=_ENV),
-        U("import", "./roaring", "^TestVerifC04_Import$", 1200, 60000, env=_ENV),
-        U("max", "./roaring", "^TestVerifC04_OfficialMax$", 8, 120, sq=2, sth=4, env=_ENV),
+        U("roundtrip", "./roaring", "^TestVerifC04_Roundtrip$", 2000, 30000, env=_ENV),
+        U("official", "./roaring", "^TestVerifC04_(Calibration|Official)$", 2000, 30000, env=_ENV),
+        U("import", "./roaring", "^TestVerifC04_Import$", 2000, 24000, env=_ENV),
+        U("max", "./roaring", "^TestVerifC04_OfficialMax$", 8, 60, sq=2, sth=4, env=_ENV),
     ],
 )
